@@ -180,7 +180,7 @@ pub fn build(ctx: &StreamContext, job: &str, n: i64, bm: BatchMode, fault: Optio
                     vec![k, x, y]
                 }).collect_vec()
             } else {
-                j.ship_broadcast_right().local_hash().inner().unkey().map(move |(k, (x, y))| {
+                j.ship_broadcast_right().local_hash().inner().map(move |(k, (x, y))| {
                     tick(&f3, 2);
                     vec![k, x, y]
                 }).collect_vec()
@@ -341,3 +341,127 @@ pub fn parse_bm(s: &str) -> BatchMode {
 }
 
 pub const BMS: &[&str] = &["default", "single", "fixed1", "fixed3", "fixed1024", "adaptive"];
+
+// ------------------------------------------------------------------------------------------------
+// runner: local or multi-host (one thread per host, loopback TCP) with a watchdog
+
+use renoir::config::{ConfigBuilder, HostConfig};
+use renoir::RuntimeConfig;
+use std::sync::mpsc;
+use std::time::Duration;
+
+#[derive(Clone, Debug)]
+pub enum Cfg {
+    Local(u64),
+    /// cores per host
+    Remote(Vec<u64>),
+}
+
+pub fn parse_cfg(s: &str) -> Cfg {
+    if let Some(p) = s.strip_prefix('L') {
+        Cfg::Local(p.parse().unwrap())
+    } else {
+        Cfg::Remote(s[1..].split('x').map(|c| c.parse().unwrap()).collect())
+    }
+}
+
+pub fn parallelism(c: &Cfg) -> u64 {
+    match c {
+        Cfg::Local(p) => *p,
+        Cfg::Remote(v) => v.iter().sum(),
+    }
+}
+
+/// Outcome of one host: Ok(per sink Option<result>) or Err(panic message)
+pub type HostOutcome = Result<Vec<Option<Vec<Vec<i64>>>>, String>;
+
+pub struct RunOutcome {
+    /// `None` = the host did not finish before the watchdog fired
+    pub hosts: Vec<Option<HostOutcome>>,
+}
+
+fn host_configs(cfg: &Cfg, uniq: u32) -> Vec<RuntimeConfig> {
+    match cfg {
+        Cfg::Local(p) => vec![RuntimeConfig::local(*p).unwrap()],
+        Cfg::Remote(cores) => {
+            // distinct loopback addresses per (process, case): 127.a.b.h
+            let pid = std::process::id();
+            let a = 1 + (pid % 250) as u8;
+            let b = ((pid / 250 + uniq * 7) % 250) as u8;
+            let base_port = 21000 + ((uniq * 37) % 20000) as u16;
+            let hosts: Vec<HostConfig> = cores
+                .iter()
+                .enumerate()
+                .map(|(h, c)| HostConfig {
+                    address: format!("127.{a}.{b}.{}", h + 1),
+                    base_port,
+                    num_cores: *c,
+                    ssh: Default::default(),
+                    perf_path: None,
+                })
+                .collect();
+            (0..cores.len())
+                .map(|h| {
+                    ConfigBuilder::new_remote()
+                        .add_hosts(&hosts)
+                        .host_id(h as u64)
+                        .build()
+                        .unwrap()
+                })
+                .collect()
+        }
+    }
+}
+
+pub fn run_job(job: &str, n: i64, bm: &str, cfg: &Cfg, fault: Option<Fault>, uniq: u32, timeout: Duration) -> RunOutcome {
+    let configs = host_configs(cfg, uniq);
+    let (tx, rx) = mpsc::channel::<(usize, HostOutcome)>();
+    let nh = configs.len();
+    for (h, config) in configs.into_iter().enumerate() {
+        let tx = tx.clone();
+        let job = job.to_string();
+        let bm = parse_bm(bm);
+        let fault = fault.clone();
+        std::thread::Builder::new()
+            .name(format!("host{h}"))
+            .spawn(move || {
+                let r = std::panic::catch_unwind(std::panic::AssertUnwindSafe(|| {
+                    let ctx = StreamContext::new(config);
+                    let getters = build(&ctx, &job, n, bm, fault);
+                    ctx.execute_blocking();
+                    getters.into_iter().map(|g| g()).collect::<Vec<_>>()
+                }));
+                let r = r.map_err(|e| {
+                    if let Some(s) = e.downcast_ref::<String>() {
+                        s.clone()
+                    } else if let Some(s) = e.downcast_ref::<&str>() {
+                        s.to_string()
+                    } else {
+                        "unknown".to_string()
+                    }
+                });
+                let _ = tx.send((h, r));
+            })
+            .unwrap();
+    }
+    drop(tx);
+    let mut hosts: Vec<Option<HostOutcome>> = (0..nh).map(|_| None).collect();
+    let deadline = std::time::Instant::now() + timeout;
+    let mut got = 0;
+    while got < nh {
+        let left = deadline.saturating_duration_since(std::time::Instant::now());
+        match rx.recv_timeout(left) {
+            Ok((h, r)) => {
+                hosts[h] = Some(r);
+                got += 1;
+            }
+            Err(_) => break,
+        }
+    }
+    RunOutcome { hosts }
+}
+
+pub fn is_infra(msg: &str) -> bool {
+    let m = msg.to_lowercase();
+    m.contains("bind") || m.contains("address") || m.contains("connect") || m.contains("refused")
+}
